@@ -901,34 +901,34 @@ theorem writeCallbacks_wf (sc : Script) (s : S) (h : WF s) (hp : s.pq = []) :
     (s.closing = false → s.cq = [] → writeCallbacks sc s = s) ∧
     (writeCallbacks sc s).cbs = s.cbs ++ s.cq.map (fun r => ⟨r.id, r.error, r.sent, r.total⟩) := by
   unfold writeCallbacks
-  cases hcq : s.cq with
-  | nil =>
-    simp only [List.isEmpty_nil, if_true]
-    exact ⟨h, hp, rfl, rfl, id, fun hc => ⟨hc, hcq, rfl⟩, fun _ _ => rfl, by simp⟩
-  | cons r rest =>
-    simp only [List.isEmpty_cons, Bool.false_eq_true, if_false]
-    have w : WF { s with pq := r :: rest, cq := [] } :=
+  by_cases hcq : s.cq = []
+  · have he : s.cq.isEmpty = true := by simp [hcq]
+    rw [if_pos he]
+    exact ⟨h, hp, rfl, rfl, id, fun hc => ⟨hc, hcq, rfl⟩, fun _ _ => rfl, by simp [hcq]⟩
+  · obtain ⟨r, rest, hcq'⟩ := List.exists_cons_of_ne_nil hcq
+    have he : ¬ (s.cq.isEmpty = true) := by simp [hcq]
+    rw [if_neg he]
+    have w : WF { s with pq := s.cq, cq := [] } :=
       { wqs_eq := (by
           have := h.wqs_eq
-          rw [hp, hcq] at this
+          rw [hp] at this
           simpa using this),
         wq_ok := h.wq_ok,
         sent_ok := (fun x hx => h.sent_ok x (by
-          rw [hp, hcq]; simpa using hx)),
+          rw [hp]; simpa using hx)),
         done_ok := (fun x hx => h.done_ok x (by
-          rw [hp, hcq]; simpa using hx)),
+          rw [hp]; simpa using hx)),
         acc_eq := (by
           have := h.acc_eq
-          rw [hp, hcq] at this
+          rw [hp] at this
           simpa using this),
         acc_lt := h.acc_lt, closing_ok := h.closing_ok, shut_ok := h.shut_ok,
         called_ok := h.called_ok, req_ok := h.req_ok, os_ok := h.os_ok, cbs_ok := h.cbs_ok,
         mon_ok := h.mon_ok,
         closed_ok := (by
           intro hh
-          have := (h.closed_ok hh).2.2
-          rw [hcq] at this; cases this) }
-    obtain ⟨b1, b2, b3, b4, b5, b6, b7⟩ := cbLoop_wf sc (r :: rest) _ w rfl
-    exact ⟨b1, b2, b3, b4, b5, fun hc => b6 hc, fun _ hx => by cases hx, b7⟩
+          exact absurd (h.closed_ok hh).2.2 hcq) }
+    obtain ⟨b1, b2, b3, b4, b5, b6, b7⟩ := cbLoop_wf sc s.cq _ w rfl
+    exact ⟨b1, b2, b3, b4, b5, fun hc => b6 hc, fun _ hx => absurd hx hcq, b7⟩
 
 end UvModel.StreamW
